@@ -349,6 +349,171 @@ def desugar_for_each(j, by_key):
     return nj
 
 
+def _assigned_once(j, local):
+    """(block, stmt index, rvalue) of the only assignment to a bare local (also not a call destination), else None."""
+    hit = None
+    for bi, b in enumerate(j["blocks"]):
+        for si, st in enumerate(b["stmts"]):
+            if st["k"] == "assign" and st["place"].get("l") == local and "p" not in st["place"]:
+                if hit is not None:
+                    return None
+                hit = (bi, si, st["rv"])
+        t = b["term"]
+        if t["k"] == "call" and isinstance(t.get("dest"), dict) and t["dest"].get("l") == local and "p" not in t["dest"]:
+            return None
+    return hit
+
+
+UNROLL_MAX_ELEMS = 8
+UNROLL_MAX_BODY = 24
+
+
+def unroll_array_loops(j):
+    """`for x in [a, b, c] { body }` over an array written out in the function is `body(a); body(b); body(c)`: the loop
+    is replaced by one copy of its body per element (the `Iterator::next` call of copy k becomes `Some(element k)`, the
+    one after the last copy `None`), so that what a loop feeds into a hasher / transcript / extractor reads as the
+    straight-line sequence it abbreviates.  Only by-value iteration of an array aggregate of at most 8 elements whose
+    iterator is used for nothing else; loops with a bigger body or any other shape are left alone."""
+    blocks0 = j["blocks"]
+    if len(blocks0) > MAX_BLOCKS:
+        return j
+    cands = []
+    for pi, b in enumerate(blocks0):
+        t = b["term"]
+        c = t.get("callee") or {} if t["k"] == "call" else {}
+        if not (t["k"] == "call" and c.get("crate") == "core" and c.get("trait") == "IntoIterator" and c.get("name") == "into_iter" and len(t.get("args", [])) == 1 and t.get("target") is not None):
+            continue
+        a = t["args"][0]
+        apl = a.get("move") if isinstance(a, dict) else None
+        if not apl or "p" in apl or not isinstance(t.get("dest"), dict) or "p" in t["dest"]:
+            continue
+        d = _assigned_once(j, apl["l"])
+        if d is None or not (isinstance(d[2].get("agg"), dict) and "array" in d[2]["agg"]):
+            continue
+        ops = d[2].get("ops") or []
+        if not (1 <= len(ops) <= UNROLL_MAX_ELEMS):
+            continue
+        cands.append((pi, t["dest"]["l"], ops))
+    if not cands:
+        return j
+    nj = None
+    for pi, it0, ops in cands:
+        cur = nj if nj is not None else j
+        blocks = cur["blocks"]
+        # the iterator local the loop advances: `it0` itself or the single local it is moved into
+        its = {it0}
+        for b in blocks:
+            for st in b["stmts"]:
+                if st["k"] == "assign" and "p" not in st["place"] and isinstance(st["rv"].get("use"), dict) and (st["rv"]["use"].get("move") or {}).get("l") == it0 and "p" not in (st["rv"]["use"].get("move") or {}):
+                    its.add(st["place"]["l"])
+        if len(its) > 2:
+            continue
+        # header: `_r = &mut it; [_r2 = &mut *_r;] _opt = Iterator::next(move _r2)`
+        H = None
+        for hi, b in enumerate(blocks):
+            t = b["term"]
+            c = t.get("callee") or {} if t["k"] == "call" else {}
+            if not (t["k"] == "call" and c.get("crate") == "core" and c.get("trait") == "Iterator" and c.get("name") == "next" and len(t.get("args", [])) == 1 and t.get("target") is not None):
+                continue
+            rl = (t["args"][0].get("move") or t["args"][0].get("copy") or {}).get("l") if isinstance(t["args"][0], dict) else None
+            src = rl
+            for st in reversed(b["stmts"]):
+                if st["k"] == "assign" and st["place"].get("l") == src and "p" not in st["place"] and isinstance(st["rv"].get("ref"), dict):
+                    src = st["rv"]["ref"]["l"]
+            if src in its and isinstance(t.get("dest"), dict) and "p" not in t["dest"]:
+                if H is not None:
+                    H = -1
+                    break
+                H = hi
+        if H is None or H < 0:
+            continue
+        opt = blocks[H]["term"]["dest"]["l"]
+        S = blocks[H]["term"]["target"]
+        st_ = blocks[S]["term"]
+        if st_["k"] != "switch" or sorted(v for v, _ in st_["arms"]) != [0, 1]:
+            continue
+        exit_b = [tg for v, tg in st_["arms"] if v == 0][0]
+        body_b = [tg for v, tg in st_["arms"] if v == 1][0]
+        # loop blocks: reachable from the body entry without passing the header, and able to come back to it
+        reach, stack = set(), [body_b]
+        while stack:
+            x = stack.pop()
+            if x in reach or x == H:
+                continue
+            reach.add(x)
+            stack.extend(_succs(blocks[x]["term"]))
+        preds = _preds_of(blocks)
+        back, stack = set(), [p_ for p_ in preds.get(H, []) if p_ in reach]
+        while stack:
+            x = stack.pop()
+            if x in back:
+                continue
+            back.add(x)
+            stack.extend(p_ for p_ in preds.get(x, []) if p_ in reach)
+        loop = back
+        if not loop or body_b not in loop or len(loop) > UNROLL_MAX_BODY or S in loop or exit_b in loop:
+            continue
+        # the iterator is used for nothing but the header's borrow (and moves / drops outside the loop)
+        def mentions(x, l):
+            if isinstance(x, dict):
+                return any((k == "l" and v == l) or mentions(v, l) for k, v in x.items() if k not in ("callee", "const"))
+            if isinstance(x, list):
+                return any(mentions(v, l) for v in x)
+            return False
+        if any(mentions(blocks[b_], l_) for b_ in loop for l_ in its) or any(mentions(blocks[b_], opt) and b_ not in loop for b_ in range(len(blocks)) if b_ not in (H, S)):
+            continue
+        if nj is None:
+            nj = dict(j)
+            nj["locals"] = list(j["locals"])
+            nj["blocks"] = [dict(b, stmts=list(b["stmts"])) for b in j["blocks"]]
+            nj["desugared"] = list(j.get("desugared", []))
+            blocks = nj["blocks"]
+        sp = blocks[H]["term"].get("sp")
+        order = sorted(loop)
+        n = len(ops)
+        heads = []
+        for k in range(n + 1):
+            heads.append(len(blocks))
+            blocks.append(None)  # placeholder, filled below
+            if k < n:
+                base = len(blocks)
+                idx = {b_: base + i for i, b_ in enumerate(order)}
+                for b_ in order:
+                    blocks.append(None)
+                heads[-1] = (heads[-1], idx)
+        # fill in
+        for k in range(n + 1):
+            if k < n:
+                hb, idx = heads[k]
+                nxt = heads[k + 1][0] if k + 1 < n else heads[k + 1]
+                blocks[hb] = {"stmts": [{"k": "assign", "place": {"l": opt}, "rv": {"agg": dict(OPTION, variant="Some", vi=1, fields=["0"]), "ops": [copy.deepcopy(ops[k])]}, "sp": sp}], "term": {"k": "goto", "target": idx[body_b], "sp": sp, "mac": ["desugar:ForLoop"]}}
+                for b_ in order:
+                    nb = copy.deepcopy(blocks[b_])
+                    t = nb["term"]
+                    def re(x):
+                        return nxt if x == H else idx.get(x, x)
+                    if t["k"] in ("goto", "drop", "call", "assert") and t.get("target") is not None:
+                        t["target"] = re(t["target"])
+                    if t["k"] == "switch":
+                        t["arms"] = [[v, re(tg)] for v, tg in t["arms"]]
+                        t["otherwise"] = re(t["otherwise"])
+                    blocks[idx[b_]] = nb
+            else:
+                hb = heads[k]
+                blocks[hb] = {"stmts": [{"k": "assign", "place": {"l": opt}, "rv": {"agg": dict(OPTION, variant="None", vi=0, fields=[]), "ops": []}, "sp": sp}], "term": {"k": "goto", "target": exit_b, "sp": sp, "mac": ["desugar:ForLoop"]}}
+        # entries into the old header from outside the loop go to the first copy
+        first = heads[0][0]
+        for bi in range(len(blocks)):
+            if blocks[bi] is None or bi in loop or bi == H:
+                continue
+            if bi >= heads[0][0]:
+                continue
+            if H in _succs(blocks[bi]["term"]):
+                blocks[bi] = dict(blocks[bi], term=_retarget(blocks[bi]["term"], H, first))
+        nj["desugared"].append("unroll[%d]@bb%d" % (n, H))
+    return nj if nj is not None else j
+
+
 def _retire_closures(nj):
     """Closure values whose bodies were spliced in and that are not handed to any remaining call: build them as plain
     tuples of their captures (the closure function is no longer called from here)."""
